@@ -11,7 +11,7 @@ namespace Life
 /-- receivers of these owners have no allocation lifetime of their own that a method may hand out:
     what they allocate is bounded by the borrow of the receiver only -/
 def Owner.hasParam : Owner → Bool
-  | .bump | .pool | .guard => false
+  | .bump | .pool | .guard | .trAllocator => false
   | _ => true
 
 /-- the lifetime is bounded by the receiver borrow, or by the allocation lifetime of a receiver that has one -/
@@ -28,8 +28,11 @@ def sigAdequate (s : Sig) : Bool :=
       -- the result points into the top epoch: its lifetime must be bounded
       s.ret.isValue && (match s.lts with | [l] => ltBounded s.ownerK l | _ => false) &&
       (s.recv != .value || (s.ownerK == .coll && s.lts == [.param])) &&
-      (s.ownerK != .coll || s.recv == .value)
-  | .mkGuard => s.recv == .refMut && s.ret == .guard && s.lts == [.recv]
+      (s.ownerK != .coll || s.recv == .value) &&
+      (s.ownerK == .bump || s.ownerK == .scope || s.ownerK == .trScope || s.ownerK == .trTypedScope ||
+       s.ownerK == .trMutTypedScope || s.ownerK == .coll)
+  | .mkGuard => s.recv == .refMut && s.ret == .guard && s.lts == [.recv] &&
+      (s.ownerK == .bump || s.ownerK == .scope || s.ownerK == .trAllocator)
   | .guardScope => s.ownerK == .guard && s.recv == .refMut && s.ret == .scopeMut && s.lts == [.recv, .recv]
   | .guardReset => s.ownerK == .guard && s.recv == .refMut && s.ret == .unit && s.lts == []
   | .resetAll => (s.ownerK == .bump || s.ownerK == .pool) && s.recv == .refMut && s.ret == .unit && s.lts == []
